@@ -1,11 +1,11 @@
 // C11 (word automata): ExplicitFiniteAut objects are values.  Same scheme as values.cc: NH heap-allocated handles, a
 // symbolic history of STEPS calls chosen from the families enabled per step by PLAN (1 copies/lifetime: copy-assign,
 // self-assign, copy-construct, move-construct, move-assign, assignment back into a moved-from object, destroy; 2 mutations: AddTransition, SetStateFinal,
-// SetStateStart; 4 RemoveUnreachableStates stored into any handle; 8 UnionDisjointStates stored into a handle and Union
+// SetStateStart; 4 RemoveUnreachableStates / RemoveUselessStates / Reverse stored into any handle; 8 UnionDisjointStates stored into a handle and Union
 // with translation maps kept in a separate result object), a value-semantics shadow per handle, every handle read back
 // after every step.  The facade has no getters for transitions and final states, so a handle is read through the public
 // DumpToString(serializer, stateDict) with a serializer that decodes the AutDescription it is given, and through
-// GetStartStates / GetStartSymbols.
+// GetStartStates / GetStartSymbols (for every state).
 // Universe: states 0..NS-1, symbols 0..NSYM-1 (registered in the alphabet as "a", "b", ...).
 // Solver variables: the initial automaton in handle 0 (first INITT transitions, INITS start entries, final states) and one
 // call code per step.
@@ -42,23 +42,48 @@ typedef ExplicitFiniteAut Aut;
 #endif
 static const unsigned char FAM[] = PLAN;
 enum { NT = NS * NSYM * NS, NST = NS * NSYM, NQ = 2 * NS };
-enum OpKind { ASSIGN, COPY, MOVEC, MOVEA, REUSEC, REUSEM, DESTROY, ADD, FINAL, START, UNREACH, UNIOND, UNION };
+enum OpKind { ASSIGN, COPY, MOVEC, MOVEA, REUSEC, REUSEM, DESTROY, ADD, FINAL, START, UNREACH, USELESS, REVERSE, UNIOND, UNION };
 struct Tr { unsigned l, a, r; };
 static Tr tr(unsigned i) { Tr t; t.l = i / (NSYM * NS); t.a = (i / NS) % NSYM; t.r = i % NS; return t; }
 
+// a value: transitions, final states, start states, and the start-symbol map (state -> set of symbols; the library keeps
+// entries of that map for states that are no longer start states after Reverse / RemoveUselessStates, and GetStartSymbols
+// answers for every state, so the whole map is part of the value)
 struct Val {
-  bool t[NT], st[NST]; unsigned fin;
-  void clear() { for (unsigned i = 0; i < NT; ++i) t[i] = false; for (unsigned i = 0; i < NST; ++i) st[i] = false; fin = 0; }
-  unsigned starts() const { unsigned m = 0; for (unsigned i = 0; i < NST; ++i) m |= (unsigned)st[i] << (i / NSYM); return m; }
-  unsigned used() const { unsigned m = fin | starts(); for (unsigned i = 0; i < NT; ++i) { Tr x = tr(i); m |= t[i] ? (1u << x.l) | (1u << x.r) : 0u; } return m; }
+  bool t[NT], st[NST]; unsigned fin, start;
+  void clear() { for (unsigned i = 0; i < NT; ++i) t[i] = false; for (unsigned i = 0; i < NST; ++i) st[i] = false; fin = start = 0; }
+  unsigned keys() const { unsigned m = 0; for (unsigned i = 0; i < NST; ++i) m |= (unsigned)st[i] << (i / NSYM); return m; }
+  unsigned used() const { unsigned m = fin | start | keys(); for (unsigned i = 0; i < NT; ++i) { Tr x = tr(i); m |= t[i] ? (1u << x.l) | (1u << x.r) : 0u; } return m; }
 };
+static unsigned forward(const Val& v, unsigned from)
+{
+  unsigned reach = from;
+  for (unsigned it = 0; it < NS; ++it) for (unsigned i = 0; i < NT; ++i) { Tr x = tr(i); reach |= (unsigned)(v.t[i] & ((reach >> x.l) & 1)) << x.r; }
+  return reach;
+}
 // reference semantics of RemoveUnreachableStates: keep what hangs on states reachable from the start states
 static Val withoutUnreachable(const Val& v)
 {
-  unsigned reach = v.starts();
-  for (unsigned it = 0; it < NS; ++it) for (unsigned i = 0; i < NT; ++i) { Tr x = tr(i); reach |= (unsigned)(v.t[i] & ((reach >> x.l) & 1)) << x.r; }
+  unsigned reach = forward(v, v.start);
   Val r = v; r.fin = v.fin & reach;
   for (unsigned i = 0; i < NT; ++i) r.t[i] = v.t[i] & ((reach >> tr(i).l) & 1);
+  return r;
+}
+// reference semantics of RemoveUselessStates: transitions on a path from a start state to a final state; reachable final
+// states; start states from which a final state can be reached
+static Val withoutUseless(const Val& v)
+{
+  unsigned reach = forward(v, v.start), co = v.fin & reach;
+  for (unsigned it = 0; it < NS; ++it) for (unsigned i = 0; i < NT; ++i) { Tr x = tr(i); co |= (unsigned)(v.t[i] & ((reach >> x.l) & 1) & ((co >> x.r) & 1)) << x.l; }
+  Val r = v; r.fin = v.fin & reach; r.start = v.start & co;
+  for (unsigned i = 0; i < NT; ++i) { Tr x = tr(i); r.t[i] = v.t[i] & ((reach >> x.l) & 1) & ((co >> x.r) & 1); }
+  return r;
+}
+// reference semantics of Reverse: every transition turned round, start and final states exchanged
+static Val reversed(const Val& v)
+{
+  Val r = v; r.fin = v.start; r.start = v.fin;
+  for (unsigned i = 0; i < NT; ++i) { Tr x = tr(i); r.t[i] = v.t[(x.r * NSYM + x.a) * NS + x.l]; }
   return r;
 }
 
@@ -71,7 +96,7 @@ template <class F> static unsigned enumerate(unsigned fam, F f)
     for (unsigned i = 0; i < NH; ++i) f(n++, DESTROY, i, i, 0u);
   }
   if (fam & 2) for (unsigned i = 0; i < NH; ++i) { for (unsigned x = 0; x < NT; ++x) f(n++, ADD, i, i, x); for (unsigned s = 0; s < NS; ++s) f(n++, FINAL, i, i, s); for (unsigned x = 0; x < NST; ++x) f(n++, START, i, i, x); }
-  if (fam & 4) for (unsigned i = 0; i < NH; ++i) for (unsigned j = 0; j < NH; ++j) f(n++, UNREACH, i, j, 0u);
+  if (fam & 4) for (unsigned i = 0; i < NH; ++i) for (unsigned j = 0; j < NH; ++j) { f(n++, UNREACH, i, j, 0u); f(n++, USELESS, i, j, 0u); f(n++, REVERSE, i, j, 0u); }
   if (fam & 8) for (unsigned i = 0; i < NH; ++i) for (unsigned j = 0; j < NH; ++j) { if (i != j) f(n++, UNIOND, i, j, 0u); f(n++, UNION, i, j, 0u); }
   return n;
 }
@@ -109,11 +134,9 @@ static bool readVal(const Aut& a, Val& out)
   bool ok = dec.ok;
   for (unsigned q = 0; q < NQ; ++q) { if (q < NS) out.fin |= (unsigned)dec.fin[q] << q; else ok &= !dec.fin[q]; }
   for (unsigned l = 0; l < NQ; ++l) for (unsigned s = 0; s < NSYM; ++s) for (unsigned r = 0; r < NQ; ++r) { if (l < NS && r < NS) out.t[(l * NSYM + s) * NS + r] = dec.t[l][s][r]; else ok &= !dec.t[l][s][r]; }
-  for (size_t q : a.GetStartStates()) { bool hit = false;
-    for (unsigned s = 0; s < NS; ++s) if (q == s) { hit = true; bool some = false;
-      for (size_t y : a.GetStartSymbols(s)) { bool known = false; for (unsigned k = 0; k < NSYM; ++k) { bool m = y == symb[k]; out.st[s * NSYM + k] |= m; known |= m; } ok &= known; some = true; }
-      ok &= some; }
-    ok &= hit; }
+  for (size_t q : a.GetStartStates()) { bool hit = false; for (unsigned s = 0; s < NS; ++s) { bool m = q == s; out.start |= (unsigned)m << s; hit |= m; } ok &= hit; }
+  for (unsigned s = 0; s < NS; ++s)
+    for (size_t y : a.GetStartSymbols(s)) { bool known = false; for (unsigned k = 0; k < NSYM; ++k) { bool m = y == symb[k]; out.st[s * NSYM + k] |= m; known |= m; } ok &= known; }
   return ok;
 }
 static void same(const Aut& a, const Val& v, int id)
@@ -121,7 +144,7 @@ static void same(const Aut& a, const Val& v, int id)
   Val got; bool ok = readVal(a, got); CHECK(ok, id + 1);
   for (unsigned i = 0; i < NT; ++i) CHECK(got.t[i] == v.t[i], id + 2);
   for (unsigned i = 0; i < NST; ++i) CHECK(got.st[i] == v.st[i], id + 3);
-  CHECK(got.fin == v.fin, id + 4);
+  CHECK(got.fin == v.fin, id + 4); CHECK(got.start == v.start, id + 5);
 }
 
 // read the Union result through its translation maps as a pair of values (left part, right part)
@@ -142,13 +165,15 @@ static bool readUnion(Val& L, Val& R)
       L.t[i] |= l & dec.t[p][a][q]; R.t[i] |= r & dec.t[p][a][q]; hit |= l | r; }
     ok &= hit | !dec.t[p][a][q]; }
   for (size_t q : ures->GetStartStates()) { bool hit = false;
-    for (unsigned s = 0; s < NS; ++s) { bool l = hasL[s] && imgL[s] == q, r = hasR[s] && imgR[s] == q;
+    for (unsigned s = 0; s < NS; ++s) { bool l = hasL[s] && imgL[s] == q, r = hasR[s] && imgR[s] == q; L.start |= (unsigned)l << s; R.start |= (unsigned)r << s;
       if (l | r) for (size_t y : ures->GetStartSymbols(q)) for (unsigned k = 0; k < NSYM; ++k) { bool m = y == symb[k]; L.st[s * NSYM + k] |= l & m; R.st[s * NSYM + k] |= r & m; }
       hit |= l | r; }
     ok &= hit; }
   return ok;
 }
-static bool equalVal(const Val& a, const Val& b) { bool e = a.fin == b.fin; for (unsigned i = 0; i < NT; ++i) e &= a.t[i] == b.t[i]; for (unsigned i = 0; i < NST; ++i) e &= a.st[i] == b.st[i]; return e; }
+// equality of values where only the start symbols of start states count (Union carries over nothing else)
+static bool equalVal(const Val& a, const Val& b) { bool e = a.fin == b.fin && a.start == b.start; for (unsigned i = 0; i < NT; ++i) e &= a.t[i] == b.t[i];
+  for (unsigned i = 0; i < NST; ++i) e &= (a.st[i] & ((a.start >> (i / NSYM)) & 1)) == (b.st[i] & ((b.start >> (i / NSYM)) & 1)); return e; }
 
 static void apply(OpKind op, unsigned i, unsigned j, unsigned a)
 {
@@ -174,15 +199,17 @@ static void apply(OpKind op, unsigned i, unsigned j, unsigned a)
 #endif
     break; }
   case FINAL: h[i]->SetStateFinal(a); val[i].fin |= 1u << a; break;
-  case START: h[i]->SetStateStart(a / NSYM, symb[a % NSYM]); val[i].st[a] = true; break;
+  case START: h[i]->SetStateStart(a / NSYM, symb[a % NSYM]); val[i].st[a] = true; val[i].start |= 1u << (a / NSYM); break;
   case UNREACH: { Aut* n = new Aut(h[i]->RemoveUnreachableStates()); Val v = withoutUnreachable(val[i]);
 #ifdef VS_SELFTEST_2
     v = val[i];                            // seeded wrong oracle: nothing is removed
 #endif
     replace(j, n); val[j] = v; break; }
+  case USELESS: { Aut* n = new Aut(h[i]->RemoveUselessStates()); Val v = withoutUseless(val[i]); replace(j, n); val[j] = v; break; }
+  case REVERSE: { Aut* n = new Aut(h[i]->Reverse()); Val v = reversed(val[i]); replace(j, n); val[j] = v; break; }
   case UNIOND:
     if ((val[i].used() & val[j].used()) == 0) { Aut* n = new Aut(Aut::UnionDisjointStates(*h[i], *h[j])); replace(j, n);
-      for (unsigned x = 0; x < NT; ++x) val[j].t[x] |= val[i].t[x]; for (unsigned x = 0; x < NST; ++x) val[j].st[x] |= val[i].st[x]; val[j].fin |= val[i].fin; }
+      for (unsigned x = 0; x < NT; ++x) val[j].t[x] |= val[i].t[x]; for (unsigned x = 0; x < NST; ++x) val[j].st[x] |= val[i].st[x]; val[j].fin |= val[i].fin; val[j].start |= val[i].start; }
     break;
   case UNION: {
     delete ures; delete umapL; delete umapR; umapL = new AutBase::StateToStateMap(); umapR = new AutBase::StateToStateMap();
@@ -223,11 +250,11 @@ extern "C" void harness(void)
     for (unsigned k = 0; k < NSYM; ++k) { sname[k] = std::string(1, (char)('a' + k)); symb[k] = (*reg)(sname[k]); } }
 #if PRE == 3
   for (unsigned i = 0; i < NT; ++i) if (t0[i]) { Tr x = tr(i); unsigned to = x.l == NS - 1; h[to]->AddTransition(x.l, symb[x.a], x.r); val[to].t[i] = true; }
-  for (unsigned i = 0; i < NST; ++i) if (s0[i]) { unsigned to = i / NSYM == NS - 1; h[to]->SetStateStart(i / NSYM, symb[i % NSYM]); val[to].st[i] = true; }
+  for (unsigned i = 0; i < NST; ++i) if (s0[i]) { unsigned to = i / NSYM == NS - 1; h[to]->SetStateStart(i / NSYM, symb[i % NSYM]); val[to].st[i] = true; val[to].start |= 1u << (i / NSYM); }
   for (unsigned s = 0; s < NS; ++s) if (f0[s]) { unsigned to = s == NS - 1; h[to]->SetStateFinal(s); val[to].fin |= 1u << s; }
 #else
   for (unsigned i = 0; i < NT; ++i) if (t0[i]) { Tr x = tr(i); h[0]->AddTransition(x.l, symb[x.a], x.r); val[0].t[i] = true; }
-  for (unsigned i = 0; i < NST; ++i) if (s0[i]) { h[0]->SetStateStart(i / NSYM, symb[i % NSYM]); val[0].st[i] = true; }
+  for (unsigned i = 0; i < NST; ++i) if (s0[i]) { h[0]->SetStateStart(i / NSYM, symb[i % NSYM]); val[0].st[i] = true; val[0].start |= 1u << (i / NSYM); }
   for (unsigned s = 0; s < NS; ++s) if (f0[s]) { h[0]->SetStateFinal(s); val[0].fin |= 1u << s; }
   for (unsigned i = 1; i < (PRE == 0 ? 1 : 2); ++i) { *h[i] = *h[0]; val[i] = val[0]; }
 #endif
@@ -242,10 +269,10 @@ extern "C" void harness(void)
     compareAll(100 * (k + 2));
   }
   // ---- an operation repeated after all that activity depends on the value only
-  for (unsigned i = 0; i < NH; ++i) { Aut t = h[i]->RemoveUnreachableStates(); same(t, withoutUnreachable(val[i]), 80); same(*h[i], val[i], 90); }
+  for (unsigned i = 0; i < NH; ++i) { Aut t = h[i]->RemoveUnreachableStates(); same(t, withoutUnreachable(val[i]), 80); Aut u = h[i]->RemoveUselessStates(); same(u, withoutUseless(val[i]), 85); same(*h[i], val[i], 90); }
 #ifdef VS_OBSERVE
   for (unsigned i = 0; i < NH; ++i) { Val g; bool ok = readVal(*h[i], g); unsigned long m = 0; for (unsigned x = 0; x < NT; ++x) m |= (unsigned long)g.t[x] << x; unsigned long s = 0; for (unsigned x = 0; x < NST; ++x) s |= (unsigned long)g.st[x] << x;
-    vs_observe(ok); vs_observe(m); vs_observe(s); vs_observe(g.fin); }
+    vs_observe(ok); vs_observe(m); vs_observe(s); vs_observe(g.fin); vs_observe(g.start); }
   vs_observe(ures != 0);
 #endif
 #ifdef VS_WITNESS
